@@ -1,15 +1,19 @@
 #!/bin/bash
-# usage: seed_matrix.sh [seed names...] — for every seeded change: apply it to /repo, run every claimed
-# quick check, undo it.  Writes build/seed_matrix.tsv (seed, check, verdict).  Evidence goes to build/.
+# usage: [MV=/path/to/verif-copy MR=/path/to/repo-copy] seed_matrix.sh [seed names...]
+# For every seeded change: apply it to the repo copy, run every quick check of the verif copy, undo it.
+# Writes $MV/build/seed_matrix.tsv (seed, check, verdict); evidence of these runs goes to $MV/build/seed-evidence.
+# With MV/MR pointing at scratch copies (a clone of /verif and a git worktree of /repo, both outside /repo and
+# /verif) the rehearsal runs beside normal work without touching /repo or /verif.
 set -u
-cd /verif
-export AGV_EVIDENCE_DIR=/verif/build/seed-evidence
-SEEDS=${@:-$(ls seeded)}
+MV=${MV:-/verif}; MR=${MR:-/repo}
+cd $MV
+export AG_REPO=$MR AGV_EVIDENCE_DIR=$MV/build/seed-evidence
+SEEDS=${@:-$(ls $MV/seeded)}
 CHECKS=$(seq -f "C%02g" 1 20)
-OUT=build/seed_matrix.tsv
+OUT=$MV/build/seed_matrix.tsv
 for S in $SEEDS; do
-  git -C /repo status --short | grep -q . && { echo "/repo not clean"; exit 2; }
-  git -C /repo apply /verif/seeded/$S/patch.diff || { echo "$S: patch does not apply"; continue; }
+  git -C $MR status --short | grep -q . && { echo "$MR not clean"; exit 2; }
+  git -C $MR apply $MV/seeded/$S/patch.diff || { echo "$S: patch does not apply"; continue; }
   for p in $CHECKS; do
     out=$(timeout 1800 bin/agv check $p --tier quick 2>/dev/null | grep -E "^VIOLATION" | head -1)
     v=quiet
@@ -17,6 +21,6 @@ for S in $SEEDS; do
     echo "$out" | grep -q "no-failing-input-found" && v=caught-nfif
     printf "%s\t%s\t%s\n" "$S" "$p" "$v" >> $OUT
   done
-  git -C /repo checkout -- .
+  git -C $MR checkout -- .
 done
-git -C /repo status --short | head -3
+git -C $MR status --short | head -3
